@@ -51,8 +51,10 @@ KINDS = {
     "TE": dict(span=None, stale=True),  # stale tags, covers no variant
     "LA": dict(span=(0, 1), hap=0, bx="bx1"),
     "LE": dict(span=None, bx="bx1"),
+    "LF": dict(span=(2, 3), hap=1, bx="bx1"),  # same barcode, 80 bp to the right of LA, the other haplotype
+    "NM": dict(unmapped=True, placed=True, mate_of_prev=True),  # unmapped mate placed at (and named like) the previous alignment
 }
-NEEDS_PREV = {"M", "S", "X"}
+NEEDS_PREV = {"M", "S", "X", "NM"}
 
 
 def make_alignments(kinds, seq, variants):
@@ -65,7 +67,12 @@ def make_alignments(kinds, seq, variants):
         m = {"kind": k, "name": name, "obs": {}, "primary": True, "rg": "rg_S1", "bx": spec.get("bx")}
         if spec.get("unmapped"):
             a = {"name": name, "chrom": None, "seq": "ACGTACGTAC", "rg": "rg_S1"}
-            if spec["placed"]:
+            if spec.get("mate_of_prev"):
+                if prev is None:
+                    return None, None
+                a.update(name=prev["name"], pos_chrom="chrA", start=prev["start"], flag=1 | 0x80, mate={"chrom": "chrA", "start": prev["start"]}, rg=prev["rg"])
+                m["name"] = prev["name"]
+            elif spec["placed"]:
                 a.update(pos_chrom="chrA", start=50)
             m["primary"] = False
             m["unmapped"] = True
@@ -243,6 +250,7 @@ def judge(inst):
     linked = any(m.get("bx") for m in meta) and not kw.get("ignore_linked_read", False)
     nontrivial = False
     two = "s2" in design
+    amb = set()  # read names whose reported phase set is not determined (several sets share the best score, or an unmodelled cloud)
     for o, idx in zip(out, keep):
         m = meta[idx]
         t = tags_of(o)
@@ -282,15 +290,64 @@ def judge(inst):
                 if haps[j][vi] == al:
                     sc[j] += 30
         if linked and any(g.get("bx") for g in grp):
-            continue  # read cloud pooling: judged on conservation and symmetry only
-        if linked and m["kind"] in ("LE",):
-            continue
+            # read cloud pooling (documented: reads with one barcode form a cloud unless they are farther apart
+            # than --linked-read-distance-cutoff); judged where the clouds are unambiguous, else on conservation
+            # and symmetry only
+            cl = clouds(meta, names, kw.get("linked_read_distance_cutoff", 50000), sample if not ign_rg else None) if not region else None
+            if cl is None or len(grp) != 1:
+                amb.add(m["name"])
+                continue
+            if m["obs"]:
+                scores = {}
+                for g in cl["of"][m["name"]]:
+                    for vi, al in g["obs"].items():
+                        if sets[vi] is None:
+                            continue
+                        sc = scores.setdefault(sets[vi], [0, 0])
+                        for j in (0, 1):
+                            if haps[j][vi] == al:
+                                sc[j] += 30
+            else:
+                # no variant of its own: takes the assignment of a cloud of its barcode within the cutoff
+                near = cl["near"](m)
+                if near is None:
+                    amb.add(m["name"])
+                    continue
+                cands = set()
+                for members in near:
+                    sc = {}
+                    for g in members:
+                        for vi, al in g["obs"].items():
+                            if sets[vi] is not None:
+                                x = sc.setdefault(sets[vi], [0, 0])
+                                for j in (0, 1):
+                                    if haps[j][vi] == al:
+                                        x[j] += 30
+                    if not sc:
+                        continue
+                    best = max(max(x) for x in sc.values())
+                    tops = [ps for ps, x in sc.items() if max(x) == best]
+                    if len(tops) > 1:
+                        cands.add("?")
+                    elif sc[tops[0]][0] != sc[tops[0]][1]:
+                        cands.add((tops[0], 1 if sc[tops[0]][0] > sc[tops[0]][1] else 2))
+                if "?" in cands or len(cands) > 1:
+                    amb.add(m["name"])
+                    continue
+                want = {"PS": list(cands)[0][0], "HP": list(cands)[0][1]} if cands else {}
+                if t != want:
+                    viols.append(V("cloud", f"alignment {m['name']} (barcode, no variant) carries {t}, the clouds of its barcode within the cutoff give {want}"))
+                elif t:
+                    nontrivial = True
+                continue
         if not scores:
             if t:
                 viols.append(V("tagged-without-variant", f"alignment {m['name']} covers no phased heterozygous variant but carries {t}"))
             continue
         best = max(max(s) for s in scores.values())
         tops = [ps for ps, s in scores.items() if max(s) == best]
+        if len(tops) > 1 and linked and m.get("bx"):
+            amb.add(m["name"])  # the order in which a cloud's reads are pooled decides between equally good sets
         if not t:
             # untagged is right only if the top-scoring set is tied
             if all(scores[ps][0] != scores[ps][1] for ps in tops):
@@ -333,6 +390,10 @@ def judge(inst):
             t1, t2 = tags_of(o1), tags_of(o2)
             m = meta[idx]
             s1_read = ign_rg or m.get("rg") == "rg_S1"
+            if strip(o1) != strip(o2):
+                viols.append(V("symmetry", f"alignment {o1['name']} differs beyond HP/PS/PC"))
+            if m["name"] in amb:
+                continue
             if t1.get("PS") == swap and s1_read:
                 want = dict(t1, HP=3 - t1["HP"])
                 if t2 != want:
@@ -342,6 +403,40 @@ def judge(inst):
             if strip(o1) != strip(o2):
                 viols.append(V("symmetry", f"alignment {o1['name']} differs beyond HP/PS/PC"))
     return viols[:5], nontrivial
+
+
+def clouds(meta, names, cutoff, sample_rg):
+    """reads with a barcode and at least one observed variant, clustered by start distance <= cutoff; None if
+    the clustering is ambiguous (a chain whose ends are farther apart than the cutoff) or a barcode read has mates"""
+    W = []
+    for m in meta:
+        if m.get("bx") and not m.get("unmapped") and not m.get("supp") and not m.get("secondary") and m["obs"]:
+            if len(names[m["name"]]) != 1:
+                return None
+            W.append(m)
+    W.sort(key=lambda m: m["start"])
+    cl = []
+    for m in W:
+        if cl and m["start"] - cl[-1][-1]["start"] <= cutoff:
+            cl[-1].append(m)
+        else:
+            cl.append([m])
+    for c in cl:
+        if c[-1]["start"] - c[0]["start"] > cutoff:
+            return None
+    of = {m["name"]: c for c in cl for m in c}
+
+    def near(m):
+        out = []
+        for c in cl:
+            d = [abs(x["start"] - m["start"]) <= cutoff for x in c]
+            if all(d):
+                out.append(c)
+            elif any(d):
+                return None
+        return out
+
+    return {"of": of, "near": near}
 
 
 def _end(r):
@@ -368,6 +463,7 @@ def option_vectors(T):
         {"output_threads": 2},
         {"use_reference": False},
         {"ignore_read_groups": True, "given_samples": ["S1"]},
+        {"linked_read_distance_cutoff": 50},
     ]
     if T:
         ov += [{"tag_supplementary": True, "ignore_linked_read": True}, {"regions": ["chrA:90-150"], "tag_supplementary": True}, {"use_reference": False, "ignore_read_groups": True, "given_samples": ["S1"]}]
@@ -382,7 +478,7 @@ def space(tier):
         for kinds in itertools.product(knames, repeat=n):
             if kinds[0] in NEEDS_PREV:
                 continue
-            if any(kinds[i] in NEEDS_PREV and kinds[i - 1] in ("N0", "N1") for i in range(1, n)):
+            if any(kinds[i] in NEEDS_PREV and kinds[i - 1] in ("N0", "N1", "NM") for i in range(1, n)):
                 continue
             if any(kinds[i] in NEEDS_PREV and kinds[i - 1] in NEEDS_PREV and kinds[i] == kinds[i - 1] for i in range(1, n)):
                 continue
@@ -481,7 +577,7 @@ def run(rep, tier, seed, only=None):
     )
     rep.assumptions += [
         "one --regions interval per chromosome (several overlapping regions write an alignment once per region; not judged)",
-        "reads sharing a BX tag (without --ignore-linked-read) are judged on conservation and exchange symmetry only",
+        "reads sharing a BX tag (without --ignore-linked-read) are judged against pooled scores of their read cloud (same barcode, start distance <= --linked-read-distance-cutoff) where the clouds are unambiguous and no region is given, else on conservation and exchange symmetry only",
         "interleavings of htslib's writer threads under --output-threads are outside the harness: only the option values are enumerated",
     ]
 
